@@ -382,7 +382,12 @@ impl Session {
                     buffer_before_decode,
                     buffer.len()
                 );
-                self.handle_frame(frame).await?;
+                if let Err(e) = self.handle_frame(frame).await {
+                    // A failing frame handler ends the receive loop: never leave the
+                    // session open without one
+                    let _ = self.close().await;
+                    return Err(e);
+                }
             }
             if frame_count == 0 && n > 0 {
                 tracing::debug!(
